@@ -653,6 +653,19 @@ impl<E: Elem> World<E> {
 }
 
 /// elementwise operations exist for token matrices only (they need the symbolic operators)
+impl<E: Elem> World<E> {
+    /// logical view through get() for any element type: extents and rows
+    pub fn lview_any(&mut self, out: &mut Out, r: usize) -> String {
+        let op = format!("lview {r}");
+        out.announce(&op);
+        let m = self.regs[r].as_ref().unwrap();
+        let rows: Vec<String> = (0..m.nrows()).map(|i| (0..m.ncols()).map(|j| m.get((i, j)).map(|e| e.show()).unwrap_or("?".into())).collect::<Vec<_>>().join(";")).collect();
+        let s = format!("lv {}x{} [{}]", m.nrows(), m.ncols(), rows.join(","));
+        out.observe(&s);
+        s
+    }
+}
+
 impl<E: Elem + Send + Sync> World<E> {
     /// `iter r variant pattern` for element types without identity (zero-sized ones): the same
     /// operation line as the token version; oracle: one item per element, and for the indexed
